@@ -631,6 +631,8 @@ def apply_step_ext(step, env, m, da_mode, sources=None):
         return A[0].map_blocks(f, dtype=A[0].dtype) if da_mode else f(A[0])
     if op == "where_scalar":
         return m.where(A[0] % step["mod"] == 0, A[0], step["fill"])
+    if op in EXT2_OPS:
+        return _apply_step_ext2(step, A, m, da_mode)
     return apply_step(step, env, m, da_mode)
 
 
@@ -757,11 +759,29 @@ def in_known_class(prog, npenv=None):
     signature or None."""
     anc = prog_ancestry(prog)
     npenv = npenv if npenv is not None else run_np_ext(prog)
+    zero_src = {st["out"] for st in prog if st["op"] == "src" and any(0 in c for c in st["chunks"]) and 0 not in st["shape"]}
+    if zero_src:
+        # a sliding-window reduction over a source with a zero-width chunk raises under optimization
+        # ('adjust_chunks specified with N blocks'): member of the documented swv-layout-drift family
+        srcs = {}
+        for st in prog:
+            srcs[st["out"]] = ({st["out"]} if st["op"] == "src" else set()).union(*[srcs.get(a, set()) for a in st.get("args", [])])
+            if st["op"] == "swv_reduce" and srcs[st["out"]] & zero_src:
+                return "swv-layout-drift"
     for st in prog:
         args = st.get("args", [])
         up = set().union(*[anc.get(a, set()) for a in args]) if args else set()
         if isinstance(st.get("value"), str):
             up |= anc.get(st["value"], set())
+        if "take_dask_index" in up and st["op"] not in _DASK_INDEX_SAFE:
+            # slicing (directly or through roll/flip/diff/...) the result of x[<dask int array>] raises
+            # AttributeError('ArrayOffsetDep' object has no attribute 'shape') on the unchanged tree
+            return "slice-of-dask-int-index"
+        if "ufunc_where_out" in up and st["op"] not in _DASK_INDEX_SAFE:
+            # an integer index / stepped slice pushed through ufunc(where=<array>, out=<dask array>) raises under
+            # optimization on the unchanged tree ("Chunks and shape must be of the same length", "Chunks do not
+            # add up ..."); correct with array.optimize-graph=False (reported)
+            return "slice-through-where-out"
         if st["op"] in ("broadcast_to", "repeat", "setitem", "tile", "swv_reduce") and "swv_reduce" in up:
             return "swv-layout-drift"
         if st["op"] == "getitem" and "swv_reduce" in up and npenv[st["out"]].size == 0:
@@ -773,6 +793,8 @@ def in_known_class(prog, npenv=None):
                 return "minmax-zero-size"
     return None
 
+
+_DASK_INDEX_SAFE = set(UNARY) | set(BINARY) | {"reduce", "rechunk", "map_blocks", "map_ident", "astype", "persist", "clip", "where_scalar", "create"}
 
 _KNOWN_MSG = (
     ("swv-layout-drift", ("Missing dependency ('sliding-window-", "adjust_chunks specified with", "optimization changed the block structure"), "swv_reduce"),
@@ -799,6 +821,223 @@ def gen_clean_program(rng, depth, ext=False, tries=50, **kw):
     kw.setdefault("zero_axes", 0)
     for _ in range(tries):
         prog, g = (gen_program_ext if ext else gen_program)(rng, depth=depth, **kw)
+        if in_known_class(prog, g.env) is None:
+            return prog, g.env
+    raise RuntimeError("generator could not leave the known-defect classes")
+
+
+# ------------------------------------------------------------------------------------
+# second extension round (graph-level checks): creation ops with irregular chunks,
+# concatenate=True contractions, masked setitem values, ufunc(where=, out=), persist,
+# zero-width source chunks.  Added functions only.
+# ------------------------------------------------------------------------------------
+
+EXT2_OPS = ("create", "setitem_masked", "ufunc_where_out", "persist", "blockwise_concat",
+            "apply_along_axis", "take_dask_index", "apply_gufunc")
+
+
+def _row_sum(b):
+    return b.sum(axis=-1)
+
+
+def _rev_cumsum(v):
+    return v[::-1].cumsum()
+
+
+def _apply_step_ext2(step, A, m, da_mode):
+    op = step["op"]
+    if op == "create":
+        shape = tuple(step["shape"])
+        kw = {"chunks": tuple(tuple(c) for c in step["chunks"])} if da_mode else {}
+        fn = step["fn"]
+        if fn == "ones":
+            return m.ones(shape, dtype=step["dtype"], **kw)
+        if fn == "zeros":
+            return m.zeros(shape, dtype=step["dtype"], **kw)
+        if fn == "full":
+            return m.full(shape, step["fill"], dtype=step["dtype"], **kw)
+        if fn == "arange":
+            return m.arange(shape[0], dtype=step["dtype"], **kw)
+        raise KeyError(fn)
+    if op == "setitem_masked":
+        x = A[0].copy()
+        x[_dec_index(step["index"])] = np.ma.masked_array(np.array(step["data"]).reshape(step["vshape"]), mask=np.array(step["mask"]).reshape(step["vshape"]))
+        return x
+    if op == "ufunc_where_out":
+        o = A[3].copy()
+        m.add(A[0], A[1], where=(A[2] % step["mod"] == 0), out=o)
+        return o
+    if op == "persist":
+        return A[0].persist(scheduler="sync") if da_mode else A[0]
+    if op == "blockwise_concat":
+        if not da_mode:
+            return _row_sum(A[0])
+        idx = "abcdefg"[: A[0].ndim]
+        return m.blockwise(_row_sum, idx[:-1], A[0], idx, concatenate=True, dtype=A[0].dtype)
+    if op == "apply_along_axis":
+        if not da_mode:
+            return np.apply_along_axis(_rev_cumsum, step["axis"], A[0])
+        return m.apply_along_axis(_rev_cumsum, step["axis"], A[0], dtype=A[0].dtype, shape=(A[0].shape[step["axis"]],))
+    if op == "take_dask_index":
+        idx = np.array(step["idx"], dtype=np.int64)
+        if not da_mode:
+            return A[0][idx]
+        return A[0][m.from_array(idx, chunks=step["ichunk"])]
+    if op == "apply_gufunc":
+        if not da_mode:
+            return _row_sum(A[0])
+        return m.apply_gufunc(_row_sum, "(i)->()", A[0], output_dtypes=A[0].dtype, allow_rechunk=True)
+    raise KeyError(op)
+
+
+def irregular_chunks(rng, n):
+    """a chunking of n with >= 4 blocks whose differing block is an interior one that fixed sample
+    positions (first / middle / last) miss; None when n is too small"""
+    if n < 5:
+        return None
+    k = rng.randint(4, min(n - 1, 7))
+    base = [1] * k
+    extra = n - k
+    pos = rng.choice([i for i in range(1, k - 1) if i != k // 2] or [1])
+    if rng.random() < 0.5:
+        base[pos] += extra
+    else:
+        base[pos] += 1
+        for _ in range(extra - 1):
+            base[rng.randrange(k)] += 1
+    return base
+
+
+class ProgGenExt2(ProgGenExt):
+    """ProgGenExt + the second-round ops; `zero_chunks`: probability that a source gets a
+    zero-width block inserted into one of its axes."""
+
+    def __init__(self, rng, zero_chunks=0.0, **kw):
+        super().__init__(rng, **kw)
+        self.zero_chunks = zero_chunks
+
+    def _swv(self, a):
+        return "swv" in self.tags.get(a, ()) and "swv-consumer" in self.avoid
+
+    def new_source(self, shape=None):
+        out = super().new_source(shape)
+        st = self.prog[-1]
+        if st["op"] == "src" and st["shape"] and self.rng.random() < self.zero_chunks:
+            ax = self.rng.randrange(len(st["shape"]))
+            if st["shape"][ax] <= 1:
+                # a length-1 axis chunked (0, 1) cannot be broadcast on the unchanged tree
+                # ("Chunks do not add up to same value"; reported, not a graph property)
+                return out
+            c = list(st["chunks"][ax])
+            c.insert(self.rng.randint(0, len(c)), 0)
+            st["chunks"][ax] = c
+        return out
+
+    def g_create_binary(self):
+        a = self.pick()
+        x = self.env[a]
+        if x.ndim == 0 or x.ndim > 2 or 0 in x.shape or self._swv(a):
+            raise _Skip
+        chunks = []
+        for d in x.shape:
+            c = irregular_chunks(self.rng, d) if self.rng.random() < 0.7 else None
+            chunks.append(c or list(gen.rand_chunks(self.rng, d)))
+        fn = self.rng.choice(["ones", "zeros", "full", "ones", "arange"] if x.ndim == 1 else ["ones", "zeros", "full"])
+        b = self.add({"op": "create", "fn": fn, "shape": list(x.shape), "chunks": chunks, "dtype": "int64", "fill": self.rng.randint(-4, 9)})
+        r = self.rng.random()
+        if r < 0.35:
+            return self.add({"op": self.rng.choice(list(UNARY)), "args": [b]})
+        if r < 0.55:
+            a2 = self.add({"op": "rechunk", "args": [a], "chunks": chunks})
+            return self.add({"op": self.rng.choice(list(BINARY)), "args": [a2, b]})
+        return self.add({"op": self.rng.choice(list(BINARY)), "args": [a, b] if self.rng.random() < 0.5 else [b, a]})
+
+    def g_setitem_masked(self):
+        a = self.pick()
+        x = self.env[a]
+        if x.ndim == 0 or 0 in x.shape or self._swv(a) or x.dtype.kind not in "iu":
+            raise _Skip
+        idx = rand_basic_index(self.rng, x.shape, allow_none=False, allow_ellipsis=False, allow_neg_step=False, allow_int=False)
+        tgt = x[idx]
+        if tgt.size == 0 or tgt.size > 40:
+            raise _Skip
+        data = [self.rng.randint(-9, 9) for _ in range(tgt.size)]
+        mask = [self.rng.random() < 0.4 for _ in range(tgt.size)]
+        return self.add({"op": "setitem_masked", "args": [a], "index": _enc_index(idx), "data": data, "mask": mask, "vshape": list(tgt.shape)}, tags=("setitem", "masked"))
+
+    def g_ufunc_where_out(self):
+        a = self.pick()
+        x = self.env[a]
+        if x.ndim == 0 or 0 in x.shape or self._swv(a) or x.dtype.kind not in "iu":
+            raise _Skip
+        same = [b for b in self.env if self.env[b].shape == x.shape and self.env[b].dtype == x.dtype and not self._swv(b)]
+        b = self.rng.choice(same)
+        c = self.rng.choice(same)
+        # the out array: a single-chunk source (its block owns its data) or a persisted array
+        o = self.new_source(x.shape)
+        self.prog[-1]["chunks"] = [[d] for d in x.shape]
+        if self.rng.random() < 0.5:
+            o = self.add({"op": "persist", "args": [o]})
+        return self.add({"op": "ufunc_where_out", "args": [a, b, c, o], "mod": self.rng.randint(2, 3)}, tags=("out",))
+
+    def g_persist(self):
+        a = self.pick()
+        if self._swv(a):
+            raise _Skip
+        return self.add({"op": "persist", "args": [a]})
+
+    def g_blockwise_concat(self):
+        a = self.pick()
+        x = self.env[a]
+        if x.ndim < 2 or 0 in x.shape or self._swv(a):
+            raise _Skip
+        return self.add({"op": "blockwise_concat", "args": [a]}, tags=("concat",))
+
+    def g_apply_along_axis(self):
+        a = self.pick()
+        x = self.env[a]
+        if x.ndim < 1 or 0 in x.shape or self._swv(a):
+            raise _Skip
+        return self.add({"op": "apply_along_axis", "args": [a], "axis": self.rng.randrange(x.ndim)}, tags=("concat",))
+
+    def g_apply_gufunc(self):
+        a = self.pick()
+        x = self.env[a]
+        if x.ndim < 2 or 0 in x.shape or self._swv(a):
+            raise _Skip
+        return self.add({"op": "apply_gufunc", "args": [a]}, tags=("concat",))
+
+    def g_take_dask_index(self):
+        a = self.pick()
+        x = self.env[a]
+        if x.ndim != 1 or x.shape[0] == 0 or self._swv(a) or "bcast" in self.tags.get(a, ()):
+            raise _Skip
+        n = x.shape[0]
+        idx = [self.rng.randint(0, n - 1) for _ in range(self.rng.randint(2, n + 2))]
+        return self.add({"op": "take_dask_index", "args": [a], "idx": idx, "ichunk": self.rng.randint(1, len(idx))}, tags=("take",))
+
+
+EXT2_DEFAULT_OPS = EXT_DEFAULT_OPS + ("create_binary", "create_binary", "setitem_masked", "ufunc_where_out", "persist",
+                                      "blockwise_concat", "blockwise_concat", "apply_along_axis", "apply_gufunc", "take_dask_index")
+
+
+def gen_program_ext2(rng, depth=4, nsrc=None, **kw):
+    kw.setdefault("ops", EXT2_DEFAULT_OPS)
+    g = ProgGenExt2(rng, **kw)
+    g.new_source()
+    for _ in range((nsrc - 1) if nsrc else (1 if rng.random() < 0.3 else 0)):
+        g.new_source()
+    for _ in range(depth):
+        g.step()
+    return g.prog, g
+
+
+def gen_clean_program2(rng, depth, tries=50, **kw):
+    """like gen_clean_program(ext=True) over the second-round op set"""
+    kw.setdefault("avoid", ("swv-consumer",))
+    kw.setdefault("zero_axes", 0)
+    for _ in range(tries):
+        prog, g = gen_program_ext2(rng, depth=depth, **kw)
         if in_known_class(prog, g.env) is None:
             return prog, g.env
     raise RuntimeError("generator could not leave the known-defect classes")
